@@ -37,7 +37,7 @@ pub fn check_partition(text: &str, obs: &[Obs], lo: usize, hi: usize) -> Option<
 }
 
 pub fn run(ctx: &Ctx, rep: &mut Report) {
-    let n_worlds = ctx.n(48, 1600);
+    let n_worlds = ctx.n(480, 16000);
     let texts_per_world = if ctx.quick() { 40 } else { 120 };
     for wi in ctx.indices(n_worlds) {
         if ctx.out_of_time() {
@@ -46,7 +46,7 @@ pub fn run(ctx: &Ctx, rep: &mut Report) {
         }
         let mut rng = Rng::derive(ctx.seed, 0xC01, wi);
         rep.progress_idx(wi, "C01 world");
-        let dopts = DictOpts::default();
+        let dopts = DictOpts { loose_compounds: true, ..DictOpts::default() };
         let place = if wi % 4 == 3 { Place::Offset(1) } else { Place::Owned };
         let world = match guard(|| build_world(&mut rng, &dopts, None, true, place)) {
             Ok(Ok(w)) => w,
@@ -88,7 +88,9 @@ pub fn run(ctx: &Ctx, rep: &mut Report) {
                 let obs = match guard(|| observe(&t.list)) {
                     Ok(o) => o,
                     Err(p) => {
-                        rep.skipped_panic(&p, json!({"world_index": wi, "text": text, "stage": "accessors"}));
+                        // tokenization succeeded, so the morphemes exist; an accessor that cannot
+                        // report their range / surface fails the surface clause
+                        rep.violation("accessor_panic", &p.site, &p.msg, "", scenario());
                         continue;
                     }
                 };
